@@ -269,7 +269,10 @@ theorem hunkLinePush_ok (cfg : Cfg) (m : M) (l : L) (hs : isHunkState m.st = tru
   unfold hunkLinePush
   rw [hr]
   cases r with
-  | none => exact ⟨_, rfl, rfl⟩
+  | none =>
+    refine ⟨_, rfl, ?_⟩
+    show wfState (.hunkZero (stateDiffType m.st)) = true
+    cases hst : m.st <;> simp_all [isHunkState, stateDiffType, wfState]
   | some p =>
     obtain ⟨k, dt⟩ := p
     have hd := hdt k dt rfl
